@@ -184,7 +184,25 @@ func normalize(pkgs []*packages.Package, fset *token.FileSet, known map[string]b
 				if im.Name != nil && (im.Name.Name == "_" || im.Name.Name == ".") {
 					continue
 				}
-				if !astutil.UsesImport(f, path) {
+				local := ""
+				if im.Name != nil {
+					local = im.Name.Name
+				} else if ip := pk.Imports[path]; ip != nil {
+					local = ip.Name
+				}
+				if local == "" {
+					continue
+				}
+				used := false
+				ast.Inspect(f, func(nd ast.Node) bool {
+					if sel, ok := nd.(*ast.SelectorExpr); ok {
+						if id, ok := sel.X.(*ast.Ident); ok && id.Name == local {
+							used = true
+						}
+					}
+					return !used
+				})
+				if !used {
 					if im.Name != nil {
 						astutil.DeleteNamedImport(fset, f, im.Name.Name, path)
 					} else {
@@ -264,7 +282,40 @@ func (n *normalizer) callee(info *types.Info, call *ast.CallExpr) (*types.Func, 
 // stmts rewrites a statement list; nested lists first.
 func (n *normalizer) stmts(list []ast.Stmt, info *types.Info, stack map[*types.Func]bool, depth int) []ast.Stmt {
 	var out []ast.Stmt
-	for _, s := range list {
+	for i := 0; i < len(list); i++ {
+		s := list[i]
+		// "v, err := helper(..)" directly followed by "if <test of v or err> { .. }"
+		if as, ok := s.(*ast.AssignStmt); ok && i+1 < len(list) && depth <= 3 {
+			if is, ok := list[i+1].(*ast.IfStmt); ok && is.Init == nil && n.labels[is] == "" && testsOnly(is.Cond, as.Lhs) {
+				if len(as.Rhs) == 1 {
+					// helper calls among the arguments come first (the expansion below needs the call itself)
+					out = append(out, n.hoistArgs(as.Rhs[0], info, stack, depth)...)
+					if call, isCall := unparen(as.Rhs[0]).(*ast.CallExpr); isCall {
+						if fn, _ := n.callee(info, call); fn != nil {
+							n.nested(is, info, stack, depth)
+							if rep, ok := n.assignThenIf(as, is, false, info, stack, depth); ok {
+								out = append(out, rep...)
+								i++
+								continue
+							}
+							// the if statement was normalised already; emit the assignment and it the ordinary way
+							out = append(out, n.stmt(as, info, stack, depth)...)
+							rep := n.stmt(is, info, stack, depth)
+							if lb := n.labels[is]; lb != "" {
+								for k, r := range rep {
+									if r == ast.Stmt(is) {
+										rep[k] = &ast.LabeledStmt{Label: ast.NewIdent(lb), Colon: is.Pos(), Stmt: is}
+									}
+								}
+							}
+							out = append(out, rep...)
+							i++
+							continue
+						}
+					}
+				}
+			}
+		}
 		n.nested(s, info, stack, depth)
 		rep := n.stmt(s, info, stack, depth)
 		if lb := n.labels[s]; lb != "" {
@@ -391,31 +442,83 @@ func pureOperand(e ast.Expr) bool {
 	return false
 }
 
-// hoistArgs expands helper calls that are arguments of the call the statement makes (the leading arguments being
-// plain operands, so that the order of evaluation is kept).
+// hoistArgs expands helper calls among the operands that the statement's expression evaluates first: arguments of
+// its call, elements of a composite literal, in order, as long as everything evaluated before is a plain operand
+// (so that the order of evaluation is kept).
 func (n *normalizer) hoistArgs(top ast.Expr, info *types.Info, stack map[*types.Func]bool, depth int) []ast.Stmt {
-	call, ok := unparen(top).(*ast.CallExpr)
-	if !ok || !pureOperand(call.Fun) {
-		return nil
-	}
 	var pre []ast.Stmt
-	for i, a := range call.Args {
-		if ac, isCall := unparen(a).(*ast.CallExpr); isCall {
-			if fn, _ := n.callee(info, ac); fn != nil && fn.Type().(*types.Signature).Results().Len() == 1 {
-				// arguments of the inner call first
-				pre = append(pre, n.hoistArgs(ac, info, stack, depth)...)
-				if p2, res, ok := n.inline(ac, info, stack, depth, false); ok && len(res) == 1 {
-					pre = append(pre, p2...)
-					call.Args[i] = res[0]
-					continue
+	var walk func(slot *ast.Expr, isTop bool) bool // false: stop, something opaque was evaluated
+	walk = func(slot *ast.Expr, isTop bool) bool {
+		switch x := (*slot).(type) {
+		case *ast.ParenExpr:
+			return walk(&x.X, isTop)
+		case *ast.UnaryExpr:
+			if x.Op == token.AND {
+				if _, isLit := unparen(x.X).(*ast.CompositeLit); isLit {
+					return walk(&x.X, false)
 				}
 			}
-			return pre // an opaque call: later arguments stay where they are
-		}
-		if !pureOperand(a) {
-			return pre
+			return pureOperand(x)
+		case *ast.IndexExpr:
+			if !pureOperand(x.X) {
+				return false
+			}
+			return walk(&x.Index, false)
+		case *ast.BinaryExpr:
+			if !walk(&x.X, false) {
+				return false
+			}
+			if x.Op == token.LAND || x.Op == token.LOR {
+				return false // the right operand is not always evaluated
+			}
+			return walk(&x.Y, false)
+		case *ast.CompositeLit:
+			for i := range x.Elts {
+				if kv, ok := x.Elts[i].(*ast.KeyValueExpr); ok {
+					if !walk(&kv.Value, false) {
+						return false
+					}
+				} else if !walk(&x.Elts[i], false) {
+					return false
+				}
+			}
+			return true
+		case *ast.CallExpr:
+			if fn, _ := n.callee(info, x); fn != nil && !isTop && fn.Type().(*types.Signature).Results().Len() == 1 {
+				for i := range x.Args {
+					if !walk(&x.Args[i], false) {
+						return false
+					}
+				}
+				if p2, res, ok := n.inline(x, info, stack, depth, false); ok && len(res) == 1 {
+					pre = append(pre, p2...)
+					*slot = res[0]
+					return true
+				}
+				return false
+			}
+			if !pureOperand(x.Fun) {
+				return false
+			}
+			if tv, ok := info.Types[n.orig(x.Fun).(ast.Expr)]; ok && tv.IsType() {
+				// a conversion: its operand is the thing evaluated
+				if len(x.Args) == 1 {
+					return walk(&x.Args[0], false)
+				}
+				return false
+			}
+			for i := range x.Args {
+				if !walk(&x.Args[i], false) {
+					return false
+				}
+			}
+			return false // the call itself is opaque for whatever follows
+		default:
+			return pureOperand(x)
 		}
 	}
+	e := top
+	walk(&e, true)
 	return pre
 }
 
@@ -537,65 +640,13 @@ func (n *normalizer) stmt(s ast.Stmt, info *types.Info, stack map[*types.Func]bo
 		}
 	case *ast.IfStmt:
 		// "if v := helper(..); cond(v) { S }": the test moves to where the helper decides what v is
-		if as, ok := x.Init.(*ast.AssignStmt); ok && len(as.Rhs) == 1 && (as.Tok == token.DEFINE || as.Tok == token.ASSIGN) {
-			if call, ok := unparen(as.Rhs[0]).(*ast.CallExpr); ok {
-				simple := true
-				for _, l := range as.Lhs {
-					if _, isID := l.(*ast.Ident); !isID {
-						simple = false
-					}
-				}
-				if fn, d := n.callee(info, call); fn != nil && simple && eligible(d, false) == "" && !stack[fn] {
-					sig := fn.Type().(*types.Signature)
-					var decls []ast.Stmt
-					okDecl := sig.Results().Len() == len(as.Lhs) && !d.namedResults()
-					if okDecl && as.Tok == token.DEFINE {
-						for i, l := range as.Lhs {
-							id := l.(*ast.Ident)
-							if id.Name == "_" {
-								continue
-							}
-							oid, _ := n.orig(id).(*ast.Ident)
-							if oid == nil || info.Defs[oid] == nil {
-								continue
-							}
-							te, good := n.typeExpr(sig.Results().At(i).Type())
-							if !good {
-								okDecl = false
-								break
-							}
-							decls = append(decls, &ast.DeclStmt{Decl: &ast.GenDecl{Tok: token.VAR, TokPos: x.Pos(), Specs: []ast.Spec{&ast.ValueSpec{Names: []*ast.Ident{ast.NewIdent(id.Name)}, Type: te}}}})
-						}
-					}
-					var frees []*ast.BranchStmt
-					collect := func(b *ast.BranchStmt) { frees = append(frees, b) }
-					loop, brk := n.enclosing()
-					okMove := okDecl && freeBranches(x.Body.List, collect)
-					if x.Else != nil {
-						okMove = okMove && freeBranches([]ast.Stmt{x.Else}, collect)
-					}
-					for _, b := range frees {
-						if b.Tok == token.BREAK && brk == nil || b.Tok == token.CONTINUE && loop == nil {
-							okMove = false
-						}
-					}
-					if okMove {
-						for _, b := range frees {
-							if b.Tok == token.BREAK {
-								b.Label = ast.NewIdent(n.labelOf(brk))
-							} else {
-								b.Label = ast.NewIdent(n.labelOf(loop))
-							}
-						}
-						init := x.Init
-						x.Init = nil
-						if pre, _, ok := n.inline(call, info, stack, depth, false, &retSink{assignTo: as.Lhs, after: []ast.Stmt{x}}); ok {
-							return []ast.Stmt{&ast.BlockStmt{Lbrace: x.Pos(), List: append(decls, pre...), Rbrace: x.End()}}
-						}
-						x.Init = init
-					}
-				}
+		if as, ok := x.Init.(*ast.AssignStmt); ok {
+			init := x.Init
+			x.Init = nil
+			if rep, ok := n.assignThenIf(as, x, true, info, stack, depth); ok {
+				return rep
 			}
+			x.Init = init
 		}
 		// "if x := helper(..); cond {" - the init statement is a statement like any other
 		if x.Init != nil {
@@ -731,7 +782,7 @@ func eligible(d *normDecl, tail bool) string {
 		case *ast.DeferStmt:
 			// deferred calls of the helper run when the calling function returns; that is the same moment only
 			// when the call is the operand of a return statement
-			if !tail {
+			if !tail && !defersMovable(d) {
 				why = "defer"
 			}
 		case *ast.LabeledStmt:
@@ -1050,15 +1101,84 @@ func (n *normalizer) inline(call *ast.CallExpr, info *types.Info, stack map[*typ
 	useLabel := nret > 0 && !tailOnly && !(sink != nil && sink.ret)
 	failed := false
 	siteNo := 0
+	nonNil := map[string]bool{}
+	// deferred calls of the helper (top level only, see defersMovable) run wherever it returns
+	var active []*ast.CallExpr
+	keepDefers := sink != nil && sink.ret
+	nDefTmp := 0
+	runDefers := func() []ast.Stmt {
+		var out []ast.Stmt
+		for i := len(active) - 1; i >= 0; i-- {
+			c := n.clone(active[i]).(*ast.CallExpr)
+			// "defer func() { BODY }()" with a body that does not return: BODY itself
+			if fl, ok := c.Fun.(*ast.FuncLit); ok && len(c.Args) == 0 && fl.Type.Results == nil {
+				hasRet := false
+				ast.Inspect(fl.Body, func(nd ast.Node) bool {
+					switch nd.(type) {
+					case *ast.FuncLit:
+						return false
+					case *ast.ReturnStmt:
+						hasRet = true
+					}
+					return true
+				})
+				if !hasRet {
+					out = append(out, &ast.BlockStmt{Lbrace: c.Pos(), List: fl.Body.List, Rbrace: c.End()})
+					continue
+				}
+			}
+			out = append(out, &ast.ExprStmt{X: c})
+		}
+		return out
+	}
+	isTopList := true
 	var rewrite func(list []ast.Stmt) []ast.Stmt
 	rewrite = func(list []ast.Stmt) []ast.Stmt {
 		var out []ast.Stmt
+		var learned []string
+		defer func() {
+			for _, id := range learned {
+				delete(nonNil, id)
+			}
+		}()
+		top := isTopList
+		isTopList = false
 		for _, s := range list {
+			if ds, isDefer := s.(*ast.DeferStmt); isDefer && top && !keepDefers {
+				active = append(active, ds.Call)
+				continue
+			}
 			ret, ok := s.(*ast.ReturnStmt)
 			if !ok {
+				// "a = b" with b known not to be nil
+				if as, isAs := s.(*ast.AssignStmt); isAs && len(as.Lhs) == 1 && len(as.Rhs) == 1 {
+					l, lok := as.Lhs[0].(*ast.Ident)
+					rr, rok := unparen(as.Rhs[0]).(*ast.Ident)
+					if lok && l.Name != "_" {
+						if rok && nonNil[rr.Name] && !nonNil[l.Name] {
+							nonNil[l.Name] = true
+							learned = append(learned, l.Name)
+						} else if !(rok && nonNil[rr.Name]) && nonNil[l.Name] {
+							delete(nonNil, l.Name)
+						}
+					}
+				}
 				if ls, isL := s.(*ast.LabeledStmt); isL {
 					if _, isRet := ls.Stmt.(*ast.ReturnStmt); isRet {
 						failed = true
+					}
+				}
+				if is, isIf := s.(*ast.IfStmt); isIf {
+					// inside "if x != nil { .. }" (x not assigned there) x is not nil
+					if id := testedNonNil(is.Cond); id != "" && !assignsTo(is.Body, id) && !nonNil[id] {
+						nonNil[id] = true
+						is.Body.List = rewrite(is.Body.List)
+						delete(nonNil, id)
+						if is.Else != nil {
+							forEachList(is.Else, func(l *[]ast.Stmt) { *l = rewrite(*l) })
+						}
+						out = append(out, s)
+						continue
 					}
 				}
 				forEachList(s, func(l *[]ast.Stmt) { *l = rewrite(*l) })
@@ -1085,6 +1205,15 @@ func (n *normalizer) inline(call *ast.CallExpr, info *types.Info, stack map[*typ
 					failed = true
 					break
 				}
+				if len(active) > 0 {
+					if id, ok := unparen(vals[0]).(*ast.Ident); !ok || (id.Name != "true" && id.Name != "false") {
+						nDefTmp++
+						tmp := fmt.Sprintf("c%d%s", nDefTmp, suffix)
+						out = append(out, &ast.AssignStmt{Lhs: []ast.Expr{ast.NewIdent(tmp)}, Tok: token.DEFINE, TokPos: ret.Pos(), Rhs: []ast.Expr{vals[0]}})
+						vals = []ast.Expr{ast.NewIdent(tmp)}
+					}
+					out = append(out, runDefers()...)
+				}
 				if id, ok := unparen(vals[0]).(*ast.Ident); ok && id.Name == "true" {
 					out = append(out, t...)
 				} else if ok && id.Name == "false" {
@@ -1104,12 +1233,13 @@ func (n *normalizer) inline(call *ast.CallExpr, info *types.Info, stack map[*typ
 						lhs = n.cloneExprs(lhs)
 					}
 					out = append(out, &ast.AssignStmt{Lhs: lhs, Tok: token.ASSIGN, TokPos: ret.Pos(), Rhs: vals})
+					out = append(out, runDefers()...)
 					if len(sink.after) > 0 {
 						aft := sink.after
 						if siteNo > 1 {
 							aft = n.cloneStmts(aft)
 						}
-						out = append(out, aft...)
+						out = append(out, specialise(aft, lhs, vals, nonNil)...)
 					}
 				}
 			case len(ret.Results) > 0:
@@ -1118,6 +1248,9 @@ func (n *normalizer) inline(call *ast.CallExpr, info *types.Info, stack map[*typ
 					lhs[i] = ast.NewIdent(rn)
 				}
 				out = append(out, &ast.AssignStmt{Lhs: lhs, Tok: token.ASSIGN, TokPos: ret.Pos(), Rhs: ret.Results})
+				out = append(out, runDefers()...)
+			default:
+				out = append(out, runDefers()...)
 			}
 			if useLabel {
 				out = append(out, &ast.BranchStmt{Tok: token.BREAK, TokPos: ret.Pos(), Label: ast.NewIdent(label)})
@@ -1126,6 +1259,15 @@ func (n *normalizer) inline(call *ast.CallExpr, info *types.Info, stack map[*typ
 		return out
 	}
 	body.List = rewrite(body.List)
+	if len(active) > 0 && len(rnames) == 0 {
+		endsInReturn := false
+		if nl := len(d.body.List); nl > 0 {
+			_, endsInReturn = d.body.List[nl-1].(*ast.ReturnStmt)
+		}
+		if !endsInReturn {
+			body.List = append(body.List, runDefers()...)
+		}
+	}
 	if failed {
 		return n.skip(d, "labelled return")
 	}
@@ -1269,6 +1411,330 @@ func (n *normalizer) receiverPure(md *normDecl) bool {
 		return true
 	})
 	return pure
+}
+
+// assignThenIf handles "v, err := helper(..)" whose results are tested by the if statement that follows (or whose
+// init statement it is): the test is placed at every point where the helper decides the results, so that no merged
+// value (a phi of "nil on the error path" and "the real value") is left for the code after it. With scoped the
+// variables live in a block of their own (if-init form), otherwise they stay visible for the statements that follow.
+func (n *normalizer) assignThenIf(as *ast.AssignStmt, x *ast.IfStmt, scoped bool, info *types.Info, stack map[*types.Func]bool, depth int) ([]ast.Stmt, bool) {
+	if len(as.Rhs) != 1 || (as.Tok != token.DEFINE && as.Tok != token.ASSIGN) {
+		return nil, false
+	}
+	call, ok := unparen(as.Rhs[0]).(*ast.CallExpr)
+	if !ok {
+		return nil, false
+	}
+	for _, l := range as.Lhs {
+		if _, isID := l.(*ast.Ident); !isID {
+			return nil, false
+		}
+	}
+	fn, d := n.callee(info, call)
+	if fn == nil || eligible(d, false) != "" || stack[fn] {
+		return nil, false
+	}
+	sig := fn.Type().(*types.Signature)
+	var decls []ast.Stmt
+	if sig.Results().Len() != len(as.Lhs) || d.namedResults() {
+		return nil, false
+	}
+	if as.Tok == token.DEFINE {
+		for i, l := range as.Lhs {
+			id := l.(*ast.Ident)
+			if id.Name == "_" {
+				continue
+			}
+			oid, _ := n.orig(id).(*ast.Ident)
+			if oid == nil || info.Defs[oid] == nil {
+				continue
+			}
+			te, good := n.typeExpr(sig.Results().At(i).Type())
+			if !good {
+				return nil, false
+			}
+			decls = append(decls, &ast.DeclStmt{Decl: &ast.GenDecl{Tok: token.VAR, TokPos: x.Pos(), Specs: []ast.Spec{&ast.ValueSpec{Names: []*ast.Ident{ast.NewIdent(id.Name)}, Type: te}}}})
+			if !scoped {
+				decls = append(decls, &ast.AssignStmt{Lhs: []ast.Expr{ast.NewIdent("_")}, Tok: token.ASSIGN, TokPos: x.Pos(), Rhs: []ast.Expr{ast.NewIdent(id.Name)}})
+			}
+		}
+	}
+	var frees []*ast.BranchStmt
+	collect := func(b *ast.BranchStmt) { frees = append(frees, b) }
+	loop, brk := n.enclosing()
+	okMove := freeBranches(x.Body.List, collect)
+	if x.Else != nil {
+		okMove = okMove && freeBranches([]ast.Stmt{x.Else}, collect)
+	}
+	for _, b := range frees {
+		if b.Tok == token.BREAK && brk == nil || b.Tok == token.CONTINUE && loop == nil {
+			okMove = false
+		}
+	}
+	if !okMove {
+		return nil, false
+	}
+	for _, b := range frees {
+		if b.Tok == token.BREAK {
+			b.Label = ast.NewIdent(n.labelOf(brk))
+		} else {
+			b.Label = ast.NewIdent(n.labelOf(loop))
+		}
+	}
+	pre, _, ok := n.inline(call, info, stack, depth, false, &retSink{assignTo: as.Lhs, after: []ast.Stmt{x}})
+	if !ok {
+		return nil, false
+	}
+	if scoped {
+		return []ast.Stmt{&ast.BlockStmt{Lbrace: x.Pos(), List: append(decls, pre...), Rbrace: x.End()}}, true
+	}
+	return append(decls, pre...), true
+}
+
+// specialise drops a test whose outcome the value just assigned decides: after "v = nil", "if v != nil { S }" is
+// nothing and "if v == nil { S }" is S (likewise true/false for a boolean v).
+func specialise(after []ast.Stmt, lhs, vals []ast.Expr, nonNil map[string]bool) []ast.Stmt {
+	if len(after) != 1 || len(lhs) != len(vals) {
+		return after
+	}
+	is, ok := after[0].(*ast.IfStmt)
+	if !ok || is.Init != nil {
+		return after
+	}
+	known := map[string]string{}
+	for i, l := range lhs {
+		li, ok1 := l.(*ast.Ident)
+		vi, ok2 := unparen(vals[i]).(*ast.Ident)
+		if ok1 && ok2 && li.Name != "_" && (vi.Name == "nil" || vi.Name == "true" || vi.Name == "false") {
+			known[li.Name] = vi.Name
+		} else if ok1 && ok2 && li.Name != "_" && nonNil[vi.Name] {
+			known[li.Name] = "nonnil"
+		} else if ok1 && li.Name != "_" && constructsError(vals[i], nonNil) {
+			known[li.Name] = "nonnil"
+		}
+	}
+	var eval func(e ast.Expr) (bool, bool)
+	eval = func(e ast.Expr) (bool, bool) {
+		switch x := unparen(e).(type) {
+		case *ast.Ident:
+			switch known[x.Name] {
+			case "true":
+				return true, true
+			case "false":
+				return false, true
+			}
+		case *ast.UnaryExpr:
+			if x.Op == token.NOT {
+				if v, ok := eval(x.X); ok {
+					return !v, true
+				}
+			}
+		case *ast.BinaryExpr:
+			if x.Op == token.EQL || x.Op == token.NEQ {
+				a, aok := unparen(x.X).(*ast.Ident)
+				b, bok := unparen(x.Y).(*ast.Ident)
+				if aok && bok {
+					if b.Name != "nil" {
+						a, b = b, a
+					}
+					if b.Name == "nil" && known[a.Name] == "nil" {
+						return x.Op == token.EQL, true
+					}
+					if b.Name == "nil" && known[a.Name] == "nonnil" {
+						return x.Op == token.NEQ, true
+					}
+				}
+			}
+		}
+		return false, false
+	}
+	v, ok := eval(is.Cond)
+	if !ok {
+		return after
+	}
+	if v {
+		return []ast.Stmt{is.Body}
+	}
+	switch e := is.Else.(type) {
+	case nil:
+		return nil
+	default:
+		return []ast.Stmt{e}
+	}
+}
+
+// defersMovable: every defer of the helper is a statement of its body's top level, defers a parameterless function
+// literal or a call whose operands are plain and never assigned in the helper, and the helper has no named results
+// (a deferred call could change them). Such deferred calls can be run at every place where the helper returns.
+// Not reproduced: that deferred calls also run when the helper panics.
+func defersMovable(d *normDecl) bool {
+	if d.namedResults() {
+		return false
+	}
+	top := map[*ast.DeferStmt]bool{}
+	for _, s := range d.body.List {
+		if ds, ok := s.(*ast.DeferStmt); ok {
+			top[ds] = true
+		}
+	}
+	ok := true
+	ast.Inspect(d.body, func(nd ast.Node) bool {
+		switch x := nd.(type) {
+		case *ast.FuncLit:
+			return false
+		case *ast.DeferStmt:
+			if !top[x] {
+				ok = false
+				return false
+			}
+			if _, isLit := x.Call.Fun.(*ast.FuncLit); isLit {
+				if len(x.Call.Args) != 0 {
+					ok = false
+				}
+				return false
+			}
+			if !pureOperand(x.Call.Fun) {
+				ok = false
+			}
+			for _, a := range x.Call.Args {
+				if !pureOperand(a) {
+					ok = false
+				}
+				ast.Inspect(a, func(n2 ast.Node) bool {
+					if id, isID := n2.(*ast.Ident); isID && assignsTo(d.body, id.Name) {
+						ok = false
+					}
+					return true
+				})
+			}
+			return false
+		}
+		return true
+	})
+	return ok
+}
+
+// constructsError: the expression builds an error that cannot be nil (fmt.Errorf, errors.New, errors.Errorf, or
+// errors.Wrap/Wrapf/WithMessage of something known not to be nil).
+func constructsError(e ast.Expr, nonNil map[string]bool) bool {
+	c, ok := unparen(e).(*ast.CallExpr)
+	if !ok {
+		return false
+	}
+	sel, ok := c.Fun.(*ast.SelectorExpr)
+	if !ok {
+		return false
+	}
+	pk, ok := sel.X.(*ast.Ident)
+	if !ok {
+		return false
+	}
+	switch pk.Name + "." + sel.Sel.Name {
+	case "fmt.Errorf", "errors.New", "errors.Errorf":
+		return true
+	case "errors.Wrap", "errors.Wrapf", "errors.WithMessage", "errors.WithMessagef", "errors.WithStack":
+		if len(c.Args) > 0 {
+			if id, ok := unparen(c.Args[0]).(*ast.Ident); ok && nonNil[id.Name] {
+				return true
+			}
+		}
+	}
+	return false
+}
+
+// testsOnly: the condition is built from the given variables, nil, true/false, !, ==, !=, && and || only, and
+// mentions at least one of the variables.
+func testsOnly(cond ast.Expr, vars []ast.Expr) bool {
+	names := map[string]bool{}
+	for _, v := range vars {
+		if id, ok := v.(*ast.Ident); ok && id.Name != "_" {
+			names[id.Name] = true
+		}
+	}
+	mentions := false
+	var ok func(e ast.Expr) bool
+	ok = func(e ast.Expr) bool {
+		switch x := unparen(e).(type) {
+		case *ast.Ident:
+			if names[x.Name] {
+				mentions = true
+				return true
+			}
+			return x.Name == "nil" || x.Name == "true" || x.Name == "false"
+		case *ast.UnaryExpr:
+			return x.Op == token.NOT && ok(x.X)
+		case *ast.BinaryExpr:
+			switch x.Op {
+			case token.EQL, token.NEQ, token.LAND, token.LOR:
+				return ok(x.X) && ok(x.Y)
+			}
+		}
+		return false
+	}
+	return ok(cond) && mentions
+}
+
+// testedNonNil: the condition is "x != nil" (or has it as a conjunct) for a plain identifier x.
+func testedNonNil(e ast.Expr) string {
+	switch x := unparen(e).(type) {
+	case *ast.BinaryExpr:
+		if x.Op == token.LAND {
+			if id := testedNonNil(x.X); id != "" {
+				return id
+			}
+			return testedNonNil(x.Y)
+		}
+		if x.Op == token.NEQ {
+			a, aok := unparen(x.X).(*ast.Ident)
+			b, bok := unparen(x.Y).(*ast.Ident)
+			if aok && bok {
+				if b.Name == "nil" && a.Name != "nil" {
+					return a.Name
+				}
+				if a.Name == "nil" && b.Name != "nil" {
+					return b.Name
+				}
+			}
+		}
+	}
+	return ""
+}
+
+// assignsTo: the statements may change the variable called name (assignment, inc/dec, address taken, redeclared).
+func assignsTo(b ast.Node, name string) bool {
+	found := false
+	ast.Inspect(b, func(nd ast.Node) bool {
+		switch x := nd.(type) {
+		case *ast.AssignStmt:
+			for _, l := range x.Lhs {
+				if id, ok := l.(*ast.Ident); ok && id.Name == name {
+					found = true
+				}
+			}
+		case *ast.IncDecStmt:
+			if id, ok := x.X.(*ast.Ident); ok && id.Name == name {
+				found = true
+			}
+		case *ast.UnaryExpr:
+			if id, ok := x.X.(*ast.Ident); ok && x.Op == token.AND && id.Name == name {
+				found = true
+			}
+		case *ast.RangeStmt:
+			for _, e := range []ast.Expr{x.Key, x.Value} {
+				if id, ok := e.(*ast.Ident); ok && id.Name == name {
+					found = true
+				}
+			}
+		case *ast.ValueSpec:
+			for _, id := range x.Names {
+				if id.Name == name {
+					found = true
+				}
+			}
+		}
+		return !found
+	})
+	return found
 }
 
 func (d *normDecl) namedResults() bool {
